@@ -1,9 +1,10 @@
 """C07 -- IN / NOT IN with expanding parameters follows SQL semantics.
 
 Executed on SQLite (deciding part): a table whose rows carry every left operand
-combination over {1, 2, 3, NULL} (arity 1..3).  For every value list of length 0..3
-(quick) / 0..4 (thorough) over {1, 2, NULL} (tuples: over the element tuples built from
-those values) and every operator form (in_, not_in, ~in_, ~not_in) the truth value
+combination over {1, 2, 3, NULL} (arity 1..3).  For every value list over {1, 2, NULL}
+-- scalar: length 0..3 (quick) / 0..5 (thorough); 2-tuples over all 9 element pairs:
+length 0..2 / 0..3; 3-tuples over 5 representative element triples: length 0..2 -- and
+every operator form (in_, not_in, ~in_, ~not_in) the truth value
 (1/0/NULL) SQLite computes for the IN form is compared, row by row, with the truth value
 the *same backend* computes for the explicit OR-of-equalities (tuple: OR of AND of
 equalities), negated for the NOT forms.  Empty list: the reference is the constant
@@ -24,6 +25,12 @@ placeholder of the list survives.  In addition the dialect's empty-set rendering
 statement and executed there: it must be FALSE / TRUE for every row.  That transplant
 relies on the fragment being plain standard SQL, which is checked by the lexer (only
 keywords NULL/AND/OR/SELECT/FROM/WHERE/AS/CAST, numbers and identifiers allowed).
+
+Candidate genuine defect re-found on the unchanged tree (keeps firing):
+  sqlite-error:tuple-empty-literal   ``tuple_(x, y).in_([])`` rendered through
+        literal_binds / literal_execute gives ``IN (VALUES SELECT 1, 1 FROM ...)``: the
+        literal path of _literal_execute_expanding_parameter_literal_binds prefixes
+        "VALUES " to the empty-set sub-select (the bound path does not) -> syntax error.
 
 Guards:
  * rows where the *reference* is judged by SQLite's row-value machinery are not used:
